@@ -336,21 +336,25 @@ type injection struct {
 }
 
 type result struct {
-	Kind      string // "" = ok; "exclusion", "lost_wakeup", "deadlock", "unlock_hang", "panic", "no_panic", "final_state"
-	Violation string
-	Trace     []string
-	Blocked   int  // operations that were observed outstanding while another operation was issued and were granted later
-	MaxQueued int  // max number of outstanding (blocked) operations on one entity
-	Parked    int  // must-block operations confirmed parked in sync.Cond.Wait before the next operation was issued
-	NotParked int  // ... not confirmed within the budget (arrival order not enforced for that operation)
-	Injected  bool // the injection was executed (certainly-not-held held at Pos)
-	InjPanic  string
-	InjClass  string // nothing_held | wrong_mode, optionally +waiters
+	Kind       string // "" = ok; "exclusion", "lost_wakeup", "deadlock", "unlock_hang", "panic", "no_panic", "final_state"
+	Violation  string
+	Trace      []string
+	Blocked    int  // operations that were observed outstanding while another operation was issued and were granted later
+	MaxQueued  int  // max number of outstanding (blocked) operations on one entity
+	Parked     int  // must-block operations confirmed parked in sync.Cond.Wait before the next operation was issued
+	NotParked  int  // ... not confirmed within the budget (arrival order not enforced for that operation)
+	Injected   bool // the injection was executed (certainly-not-held held at Pos)
+	InjPanic   string
+	InjClass   string // nothing_held | wrong_mode, optionally +waiters
+	Goroutines string // goroutine dump taken when a hang was detected (tells a stall from a deadlock)
 }
 
 func (r result) payload(s script, inj *injection) map[string]any {
 	p := map[string]any{"mutex": s.Mutex, "programs": s.progStrings(), "arrival_order": s.Order,
 		"kind": r.Kind, "observed": r.Violation, "trace": r.Trace}
+	if r.Goroutines != "" {
+		p["goroutines_at_hang"] = r.Goroutines
+	}
 	if inj != nil {
 		p["wrong_unlock"] = map[string]any{"after_issued_ops": inj.Pos, "op": inj.Op.String(), "executed": r.Injected, "panic": r.InjPanic}
 	}
@@ -421,6 +425,9 @@ func runScript(s script, inj *injection) (res result) {
 			res.Kind = kind
 			res.Violation = fmt.Sprintf(f, a...)
 			trace("VIOLATION %s: %s", kind, res.Violation)
+			if kind == "lost_wakeup" || kind == "deadlock" || kind == "unlock_hang" || kind == "final_state" {
+				res.Goroutines = ctl.Dump()
+			}
 		}
 	}
 
@@ -473,6 +480,13 @@ func runScript(s script, inj *injection) (res result) {
 			handle(ev)
 			return true
 		default:
+		}
+		if d >= ctl.HangTimeout { // hang verdicts use the stall-tolerant watchdog
+			ev, ok := patientRecv(events, d)
+			if ok {
+				handle(ev)
+			}
+			return ok
 		}
 		t := time.NewTimer(d)
 		defer t.Stop()
@@ -585,7 +599,7 @@ func runScript(s script, inj *injection) (res result) {
 			}
 		}
 		var pv any
-		returned := ctl.Within(ctl.HangTimeout, func() {
+		returned := withinHang(func() {
 			defer func() { pv = recover() }()
 			if o.Kind == opUnlock {
 				l.Unlock(o.Ents[0])
@@ -695,7 +709,7 @@ func runScript(s script, inj *injection) (res result) {
 		sort.Ints(es)
 		for _, e := range es {
 			var pv any
-			ok := ctl.Within(ctl.HangTimeout, func() {
+			ok := withinHang(func() {
 				defer func() { pv = recover() }()
 				l.Lock(e)
 				l.Unlock(e)
